@@ -42,6 +42,8 @@ fn harvest(prop: &'static str, cfg: &PeerCfg, sim: &mut PeerSim, out: &mut CaseO
     out.count("forbidden_edge_attempts", st.forbidden_attempts);
     out.count("rsts_outside_window", st.blind_rsts);
     out.count("syns_carrying_data", st.syns_with_data);
+    out.count("cooperative_epilogues", st.coop_epilogues);
+    out.count("cooperative_epilogues_completed", st.coop_completed);
     out.count("runs_with_finished", st.finished as u64);
     out.count("runs_with_seq_wrap", st.wrap as u64);
     out.count("max_ranges_open", st.max_holes as u64);
